@@ -642,7 +642,9 @@ def inline_new_locals(q, fn, base_locals, log, name):
       continue
     st = sts[0]
     val = st.value
-    if any(isinstance(x, (ast.Yield, ast.YieldFrom, ast.Await, ast.NamedExpr, ast.Lambda, ast.ListComp, ast.List, ast.Dict, ast.Set, ast.DictComp, ast.SetComp)) for x in ast.walk(val)):
+    if any(isinstance(x, (ast.Yield, ast.YieldFrom, ast.Await, ast.NamedExpr, ast.Lambda, ast.List, ast.Dict, ast.Set, ast.DictComp, ast.SetComp)) for x in ast.walk(val)):
+      continue
+    if any(isinstance(x, ast.ListComp) for x in ast.walk(val)) and sum(1 for n in _own_walk(fn) if isinstance(n, ast.Name) and n.id == v and isinstance(n.ctx, ast.Load)) != 1:
       continue
     # the statement must sit directly in a statement list (not under a condition that may be skipped: accepted, approximation)
     uses = [n for n in _own_walk(fn) if isinstance(n, ast.Name) and n.id == v and isinstance(n.ctx, ast.Load)]
@@ -654,8 +656,6 @@ def inline_new_locals(q, fn, base_locals, log, name):
       continue      # a value computed once on purpose (rounding, conversion, snapshot of a container) stays a local
     for u in uses:
       pa = getattr(u, "_parent", None)
-      if isinstance(pa, ast.Attribute) and isinstance(getattr(pa, "_parent", None), ast.Call) and pa._parent.func is pa and pa.attr in _MUTATORS:
-        bad = True
       if isinstance(pa, ast.Subscript) and isinstance(pa.ctx, (ast.Store, ast.Del)):
         bad = True
       if isinstance(pa, ast.AugAssign) and pa.target is u:
